@@ -115,10 +115,12 @@ func runC06(w *World) {
 		return
 	}
 	// initial follower state
-	initial := w.knob("initial", 3) // 0 empty, 1 a true prefix of the leader's log, 2 unrelated data
+	// 0 empty, 1 a true prefix of the leader's log, 2 unrelated data, 3 a prefix of the leader's
+	// log followed by writes the leader never saw (a node that was on its own for a while)
+	initial := w.knob("initial", 4)
 	F.dir = F.freshDir()
 	switch initial {
-	case 1:
+	case 1, 3:
 		w.Settle()
 		rc.hc.lm.poll()
 		b, _ := os.ReadFile(filepath.Join(L.dir, "appendonly.aof"))
@@ -127,8 +129,36 @@ func runC06(w *World) {
 		if len(ents) > 0 {
 			cut = ents[w.ch.choose(len(ents))].end
 		}
-		os.WriteFile(filepath.Join(F.dir, "appendonly.aof"), b[:cut], 0600)
+		own := b[:cut:cut]
+		if initial == 3 {
+			m, _, _, _ := modelFromLog(own, w.now())
+			tail := w.program("divergent", func(r *rand.Rand) []Cmd {
+				g := defaultGenCfg(8)
+				g.keys = []string{"k1", "d1"}
+				g.exVals = []string{"1000"}
+				var p []Cmd
+				for i, n := 0, 1+r.Intn(8); i < n; i++ {
+					p = append(p, g.writeCmd(r))
+				}
+				if r.Intn(2) == 0 {
+					for i := 0; i < 10; i++ {
+						p = append(p, Cmd{Args: []string{"SET", "dbig", fmt.Sprintf("b%d", i), "STRING", strings.Repeat("d", 60000)}})
+					}
+				}
+				return p
+			})
+			for _, c := range tail {
+				if r := m.apply(c.Args, 0); r.changed {
+					own = append(own, encodeCmd(c.Args)...)
+				}
+			}
+			w.stat("c06.initial_divergent_tail_bytes", len(own)-cut)
+		}
+		os.WriteFile(filepath.Join(F.dir, "appendonly.aof"), own, 0600)
 		w.stat("c06.initial_prefix_bytes", cut)
+		if cut >= checksumsz {
+			w.stat("probe.initial_prefix_exceeds_checksum_window", 1)
+		}
 	case 2:
 		ur := w.program("unrelated", func(r *rand.Rand) []Cmd {
 			g := defaultGenCfg(7)
@@ -182,6 +212,7 @@ func runC06(w *World) {
 	dialStep := map[string]int{}
 	staleSize := false // the stream connection's SERVER reply predates a rewrite of the leader's log
 	seenGrants := 0
+	seenF := 0
 	// after a leader crash and until the follower's stream runs against the restarted leader, the
 	// follower still holds (and is measured against) what the crashed instance had streamed
 	var oldLM *LogModel
@@ -201,6 +232,16 @@ func runC06(w *World) {
 		g := L.inst.grants
 		if seenGrants > len(g) {
 			seenGrants = 0 // leader restarted
+		}
+		if fi := F.inst; fi != nil && !fi.dead {
+			if seenF > len(fi.grants) {
+				seenF = 0
+			}
+			for ; seenF < len(fi.grants); seenF++ {
+				if fi.grants[seenF].role == "followchk" && fi.srv.aofsz >= checksumsz {
+					w.stat("probe.checksum_search_on_follower_log", 1)
+				}
+			}
 		}
 		for ; seenGrants < len(g); seenGrants++ {
 			if g[seenGrants].role == "liveaof" {
@@ -451,7 +492,7 @@ func runC06(w *World) {
 		w.stat("probe.follower_log_exceeds_checksum_window", 1)
 	}
 	w.nontriv = caughtUpSeen > 0 && len(rc.hc.lm.entries) >= 5
-	w.sample = map[string]interface{}{"seed": w.seed, "initial_follower_state": []string{"empty", "true prefix of the leader's log", "unrelated data"}[initial],
+	w.sample = map[string]interface{}{"seed": w.seed, "initial_follower_state": []string{"empty", "true prefix of the leader's log", "unrelated data", "prefix of the leader's log + own divergent writes"}[initial],
 		"follow_via_command": viaCmd, "leader_log_entries": len(rc.hc.lm.entries), "faults": map[string]int{
 			"kill": w.stats["fault.kill_replication_conn"], "stall": w.stats["fault.stall_replication_conn"], "crash_follower": w.stats["fault.crash_follower"]},
 		"big_values": big}
